@@ -185,28 +185,44 @@ fn tmp_path(ext: &str) -> std::path::PathBuf {
     p
 }
 
+/// Writes with `write` into a fresh file and then again over an existing, much longer file at the same
+/// path: both must leave a file of the same length (an export replaces the file, it does not patch it);
+/// returns the bytes of the second export.
+fn export_bytes(ext: &str, write: &dyn Fn(&std::path::Path) -> Result<(), String>) -> Result<Vec<u8>, String> {
+    let path = tmp_path(ext);
+    let _ = std::fs::remove_file(&path);
+    write(&path)?;
+    let fresh = std::fs::read(&path).map_err(|e| e.to_string())?;
+    std::fs::write(&path, vec![b'#'; fresh.len() * 2 + 4096]).map_err(|e| e.to_string())?;
+    let r = write(&path);
+    let over = std::fs::read(&path).map_err(|e| e.to_string());
+    let _ = std::fs::remove_file(&path);
+    r?;
+    let over = over?;
+    // (the two exports may order map entries differently; the caller decodes the second one)
+    if over.len() != fresh.len() {
+        return Err(format!("exporting over an existing longer file leaves {} bytes, exporting into a fresh file {} bytes: the old content is not replaced", over.len(), fresh.len()));
+    }
+    Ok(over)
+}
+
 /// to_json / to_cbor into scratch files, decoded back into the plain list-of-steps form.
 fn export_both(log: &mahf::logging::Log) -> (Value, Value) {
-    let pj = tmp_path("json");
-    let j = match catch(|| log.to_json(&pj)) {
-        Ok(Ok(())) => std::fs::read_to_string(&pj).map_err(|e| e.to_string()).and_then(|s| serde_json::from_str::<Value>(&s).map_err(|e| e.to_string())).map(|v| expand(&v)).unwrap_or_else(|e| json!({"error": e})),
-        Ok(Err(e)) => json!({"error": format!("{:#}", e)}),
-        Err(p) => json!({"error": format!("panic: {}", p)}),
+    let j = match export_bytes("json", &|p| catch(|| log.to_json(p)).map_err(|p| format!("panic: {}", p)).and_then(|r| r.map_err(|e| format!("{:#}", e)))) {
+        Ok(bytes) => String::from_utf8(bytes).map_err(|e| e.to_string()).and_then(|s| serde_json::from_str::<Value>(&s).map_err(|e| e.to_string())).map(|v| expand(&v)).unwrap_or_else(|e| json!({"error": e})),
+        Err(e) => json!({"error": e}),
     };
-    let _ = std::fs::remove_file(&pj);
-    let pc = tmp_path("cbor");
-    let c = match catch(|| log.to_cbor(&pc)) {
-        Ok(Ok(())) => match std::fs::read(&pc) {
-            Ok(bytes) => match ciborium::de::from_reader::<ciborium::value::Value, _>(&bytes[..]) {
+    let c = match export_bytes("cbor", &|p| catch(|| log.to_cbor(p)).map_err(|p| format!("panic: {}", p)).and_then(|r| r.map_err(|e| format!("{:#}", e)))) {
+        Ok(bytes) => {
+            let mut cur = std::io::Cursor::new(&bytes[..]);
+            match ciborium::de::from_reader::<ciborium::value::Value, _>(&mut cur) {
+                Ok(_) if (cur.position() as usize) != bytes.len() => json!({"error": format!("{} bytes follow the CBOR value in the exported file", bytes.len() - cur.position() as usize)}),
                 Ok(v) => expand(&cbor_to_json(&v)),
                 Err(e) => json!({"error": e.to_string()}),
-            },
-            Err(e) => json!({"error": e.to_string()}),
-        },
-        Ok(Err(e)) => json!({"error": format!("{:#}", e)}),
-        Err(p) => json!({"error": format!("panic: {}", p)}),
+            }
+        }
+        Err(e) => json!({"error": e}),
     };
-    let _ = std::fs::remove_file(&pc);
     (j, c)
 }
 
@@ -331,8 +347,15 @@ fn check_log_case(c: &LogCase, out: &Outcome<LogObs>) -> Option<(String, String)
         let got: Vec<(String, Value)> = s.as_array().cloned().unwrap_or_default().iter().map(|x| (x["name"].as_str().unwrap_or("?").to_string(), x["value"].clone())).collect();
         let strip = |v: &Vec<(String, Value)>| -> Vec<(String, Value)> { v.iter().filter(|x| x.0 != name_it()).cloned().collect() };
         let its = |v: &Vec<(String, Value)>| -> Vec<Value> { v.iter().filter(|x| x.0 == name_it()).map(|x| x.1.clone()).collect() };
-        if strip(&got) != strip(e) {
-            let kind = if strip(&got).len() != strip(e).len() { "entry-set" } else if strip(&got).iter().zip(strip(e).iter()).any(|(a, b)| a.0 != b.0) { "entry-order-or-name" } else { "entry-value" };
+        let sorted = |v: Vec<(String, Value)>| -> Vec<(String, String)> {
+            let mut x: Vec<(String, String)> = v.into_iter().map(|(n, val)| (n, val.to_string())).collect();
+            x.sort();
+            x
+        };
+        // one entry per fired rule (first rule wins for a repeated name); the statement does not fix
+        // the order of entries inside a step
+        if sorted(strip(&got)) != sorted(strip(e)) {
+            let kind = if strip(&got).len() != strip(e).len() { "entry-set" } else if sorted(strip(&got)).iter().zip(sorted(strip(e)).iter()).any(|(a, b)| a.0 != b.0) { "entry-name" } else { "entry-value" };
             return Some((format!("{} {}", head, kind), ctx(format!("step {} holds {:?}, expected {:?}", k, got, e))));
         }
         if its(&got) != its(e) {
@@ -579,20 +602,52 @@ pub fn run(rep: &mut Report) {
         }
         part.outcome(format!("{}:{}", tmpl, variants.len()));
     }
-    // Configuration::to_ron into a file
-    let dir = tmp_path("ron");
+    // configurations that differ only in the identifier a step works under (which evaluator, whose
+    // particle bests) differ in structure: serialised alternately, each keeps its own text
+    {
+        use mahf::identifier::{Global, A, B};
+        let mk = |w: u8| -> Result<String, String> {
+            let b = mahf::Configuration::<RealP>::builder();
+            let c = match w {
+                0 => b.evaluate_with::<Global>().build(),
+                1 => b.evaluate_with::<A>().build(),
+                _ => b.evaluate_with::<B>().build(),
+            };
+            ron_string(&c)
+        };
+        let order = [1u8, 0, 2, 1, 0, 2];
+        let texts: Vec<Result<String, String>> = order.iter().map(|w| catch(|| mk(*w)).unwrap_or_else(|p| Err(format!("panic: {}", p)))).collect();
+        part.transitions += order.len() as u64;
+        part.traces += 1;
+        for i in 0..order.len() {
+            for j in i + 1..order.len() {
+                let same = order[i] == order[j];
+                match (&texts[i], &texts[j]) {
+                    (Ok(a), Ok(b)) if (a == b) != same => {
+                        part.violate(
+                            format!("C15 export identifier {}", if same { "same-configuration-different-text" } else { "different-identifiers-same-text" }),
+                            format!("evaluation steps under identifiers {} and {} (serialised as number {} and {} of the sequence Global/A/B = 0/1/2 {:?}) export to {:?} and {:?}", order[i], order[j], i, j, order, a, b),
+                            json!({"kind": "template"}),
+                        );
+                    }
+                    (Err(e), _) | (_, Err(e)) => part.violate("C15 export identifier fails".to_string(), e.clone(), json!({"kind": "template"})),
+                    _ => {}
+                }
+            }
+        }
+    }
+    // Configuration::to_ron into a file (fresh, and over an existing longer file): the text of the tree
     let probe = ga::real_ga::<RealP>(ga::RealProblemParameters { population_size: 2, tournament_size: 1, pm: 0.5, deviation: 0.1, pc: 0.5 }, LessThanN::iterations(1));
-    part.transitions += 1;
-    match probe.map_err(|e| format!("{:#}", e)).and_then(|c| c.to_ron(&dir).map_err(|e| format!("{:#}", e))) {
-        Ok(()) => {
-            let written = std::fs::read_to_string(&dir).unwrap_or_default();
-            if !written.contains("Tournament") {
+    part.transitions += 2;
+    match probe.map_err(|e| format!("{:#}", e)).and_then(|c| export_bytes("ron", &|p| c.to_ron(p).map_err(|e| format!("{:#}", e))).map(|b| (b, ron_string(&c)))) {
+        Ok((bytes, text)) => {
+            let written = String::from_utf8_lossy(&bytes).to_string();
+            if !written.contains("Tournament") || Ok(written.clone()) != text {
                 part.violate("C15 export to_ron file-content".to_string(), format!("file written by to_ron: {}", written.chars().take(200).collect::<String>()), json!({"kind": "template"}));
             }
         }
         Err(e) => part.violate("C15 export to_ron fails".to_string(), format!("Configuration::to_ron on real_ga: {}", e), json!({"kind": "template"})),
     }
-    let _ = std::fs::remove_file(&dir);
     part.sample(json!({"template": "real_pso", "variants": "base + each of 6 parameters changed alone"}));
     rep.push(part);
 }
